@@ -647,6 +647,34 @@ impl Elt for Fp {
     }
 }
 
+impl Elt for Rat {
+    fn t_real_full<S: TensorRef<(Rat, Index), D>, const D: usize>(
+        _v: RecordTensor<'static, Rat, S, D>,
+        _op: &str,
+        _via: &str,
+        _k: Option<&Rat>,
+    ) -> RT<Rat, D> {
+        panic!("harness: no real functions for Rat")
+    }
+    fn t_real_lite<S: TensorRef<(Rat, Index), D>, const D: usize>(_v: RecordTensor<'static, Rat, S, D>, _op: &str, _k: Option<&Rat>) -> RT<Rat, D> {
+        panic!("harness: no real functions for Rat")
+    }
+    fn m_real_full<S: MatrixRef<(Rat, Index)> + NoInteriorMutability>(
+        _v: RecordMatrix<'static, Rat, S>,
+        _op: &str,
+        _via: &str,
+        _k: Option<&Rat>,
+    ) -> RM<Rat> {
+        panic!("harness: no real functions for Rat")
+    }
+    fn m_real_lite<S: MatrixRef<(Rat, Index)> + NoInteriorMutability>(_v: RecordMatrix<'static, Rat, S>, _op: &str, _k: Option<&Rat>) -> RM<Rat> {
+        panic!("harness: no real functions for Rat")
+    }
+    fn rec_real(_x: &Rc<Rat>, _op: &str, _k: Option<&Rat>) -> Rc<Rat> {
+        panic!("harness: no real functions for Rat")
+    }
+}
+
 pub const REAL_OPS: [&str; 7] = ["sin", "cos", "exp", "ln", "sqrt", "pown", "npow"];
 
 // ---------------------------------------------------------------------------------------------
@@ -1976,6 +2004,7 @@ where
 enum Case {
     None,
     Fp(CaseG<Fp>),
+    Rat(CaseG<Rat>),
 }
 
 pub struct Runner {
@@ -1994,12 +2023,16 @@ impl Runner {
         if toks[0] == "@" {
             self.case = Case::None;
             let n: usize = toks.get(2).and_then(|s| s.parse().ok()).unwrap_or(1);
-            self.case = Case::Fp(CaseG::<Fp>::new(n));
+            self.case = match toks.get(3) {
+                Some(&"rat") => Case::Rat(CaseG::<Rat>::new(n)),
+                _ => Case::Fp(CaseG::<Fp>::new(n)),
+            };
             return "ok".into();
         }
         match &mut self.case {
             Case::None => "bad-op".into(),
             Case::Fp(c) => c.step(toks),
+            Case::Rat(c) => c.step(toks),
         }
     }
 }
